@@ -639,16 +639,38 @@ A resume falls in exactly one of three cases, by what the resumed executor does 
          queue; the re-opening executor does exactly that (`kahn_counterexample_retry` shows the
          restriction is necessary), so the order of `second`'s deliveries relative to the resumed
          loads is not covered either.
-     Precisely, what is missing is
+     UPDATE (after this file was written): the loader-level core now exists for an ALL-SUCCESSFUL
+     record — `GS.Loader.replay_walk` (`GSProofs/Lemmas/LoaderReplay.lean`, c02-prover): from any closed
+     loader state whose record is `recOfLT (root :: pre')` (every recorded load delivered), with a
+     fresh verifier over that record, no parked load, the honest stream for skip `w` in the queue
+     (`respItemsW rem lt [] w`, = `Responder.respondSpec` by `C02.honest_response_is_spec`), the
+     prefix blocks in the (possibly grown) store, `rem root.cid` and the window condition `hwin`
+     (negations of the two C02 finding classes), `walk s (n :: post)` continues the reference
+     traversal `refTrav rem lt s.store none` and ends with its store.  That IS `reopen_complete` for
+     records without `ok = false` entries.  What still separates it from a theorem about
+     `PauseResume.exchange` (case (c)):
+       1. executor bridge: `Requestor.drive` over a closed loader with `requestSent = true` reports
+          exactly `Loader.walk` (blocks / missing / store) — C02 has only the safety relation
+          `C01.exchange_walk` here, the equality is listed as open in GSProofs/C02.lean as well;
+       2. the state reached by pause + Unpause + first miss + `SetRemoteOnline(true)` + ingest of
+          the whole second response + final status satisfies `replay_walk`'s hypotheses: needs the
+          invariants "record = recOfLT (nodes loaded so far)" and "every loaded block is in the
+          store" along `drive` through local AND remote loads (neither exists), and the parked
+          retried load (`pending = some _`, re-run by `wake`) has to be related to the fresh `load`
+          that `walk` starts with (`C02.kahn_parked` gives this up to `Sim`);
+       3. records with unsuccessful loads (a missing link met before the pause): not covered by
+          `replay_walk` (its induction follows a contiguous prefix);
+       4. the second response arriving in several messages interleaved with the resumed loads:
+          `kahn_schedule` excludes `RetryLastLoad` after a remote load, which is what re-opening
+          does (`kahn_counterexample_retry`).
+     The statement that would close the case, at the loader level and for every record, is
 
        theorem reopen_complete (rem loc lt) (k ≥ 1) (rec := the traversal record of the first k loads
-           of refTrav rem lt loc) :
+           of refTrav rem lt loc — successful or not) :
          walk (afterResponse' loc rec (respItems rem lt (skip := max u k))) (lt from its k-th node on)
            = the tail of refTrav rem lt loc from the k-th node on
 
-     (verifier replay: the honest stream for skip k, checked against the record of the first k loads,
-     is accepted and consumed up to exactly the k-th entry — an induction over the path trie), plus
-     C02's `PrefixHeldByResponder` hypothesis (without it: `requestor_skip_prefix_counterexample`).
+     plus C02's `PrefixHeldByResponder` hypothesis (without it: `requestor_skip_prefix_counterexample`).
      With `reopen_complete`, case (c) follows from the ingredients proved here: `driveP_split` (the run
      up to the pause is the uninterrupted run), `stale_dropped_run` (messages of the cancelled
      response that arrive while paused are dropped), `reopen_fresh` (the re-opened loader starts from an
